@@ -53,7 +53,7 @@ class DDLParser(Parser, Dialects):
             t.type = "LT"
             self.lexer.lt_open += t.value.count("<")
         if ">" in t.value and not self.lexer.check:
-            t.type = "RT"
+            t.type = "LT" if "<" in t.value else "RT"
             self.lexer.lt_open -= t.value.count(">")
         return t
 
